@@ -201,7 +201,13 @@ import sys, json
 from mc.env import NS
 P = NS['Pregex']
 lits = json.load(open(sys.argv[1]))
-print(json.dumps([str(P(s)) for s in lits]))
+out = []
+for s in lits:
+    try:
+        out.append(str(P(s)))
+    except BaseException as e:
+        out.append(None)
+print(json.dumps(out))
 '''
 
 
@@ -261,7 +267,7 @@ def run_C01(run):
         shutil.rmtree(td, ignore_errors=True)
     for seed, out in zip(seeds, outs):
         for s, a, b in zip(lits, texts, out):
-            if a is not None and a != b:
+            if a is not None and b is not None and a != b:
                 run.add([V('C01|hashseed|%r' % s,
                            f"Pregex({s!r}) is {b!r} under PYTHONHASHSEED={seed} but {a!r} in this process",
                            f"# run with PYTHONHASHSEED={seed}\nprint(str(Pregex({s!r})))")])
